@@ -17,7 +17,7 @@ RUN_REQUIRES = {
         "(G_ctx_scenario is ABSENT or typeof_is(G_ctx_scenario, 'Scenario')) and "
         "(is_none(G_ctx_feature) or typeof_is(G_ctx_feature, 'Feature')) and (G_ctx_rule is ABSENT or typeof_is(G_ctx_rule, 'Rule'))",
 }
-RUN_MODIFIES = ["G_bad", "G_nhooks", "G_hook_name", "G_hook_arg", "G_ncalls", "G_calls", "G_nev", "G_ev_kind",
+RUN_MODIFIES = ["G_bad", "G_nhooks", "G_hook_name", "G_hook_arg", "G_hook_out", "G_hook_err", "G_ncalls", "G_calls", "G_nev", "G_ev_kind",
                 "G_ev_arg", "G_ev_status", "G_ctx_aborted", "G_ctx_scenario", "G_ctx_feature", "G_ctx_depth", "G_ctx_saved_scenario", "G_ctx_rule", "G_ctx_saved_rule",
                 "G_npops", "G_ncleanup_runs", "G_log_installed", "G_ctx_writes",
                 "*.status", "*.hook_failed", "*.duration", "*.exception", "*.exc_traceback", "*.error_message",
